@@ -210,6 +210,7 @@ def register(reg):
     register_info(reg)
     register_setup(reg)
     register_merge(reg)
+    register_slicing(reg)
 
 
 # =============================================================================================
@@ -1296,3 +1297,112 @@ def register_merge(reg):
         canaries={'never_more_than_one_group': lambda result, self: (smt.CURRENT_CTX.ghost.get('locals_at_exit') or {}).get('prelim_groups').n <= 1},
         notes=('MinSepF: the separation looked up for a height is a function of the height (purity of _get_min_sep_for_height: frame '
                'contract + A-DET); AmpycloudError only from that lookup (MIN_SEP_LIMS / MIN_SEP_VALS of incompatible lengths)')))
+
+
+# =============================================================================================
+# find_slices (C05, slice clause): every hit with a valid height gets a slice id >= 0, every non-detection -1
+# =============================================================================================
+class ChunkForSlicing(Spec):
+    def make(self, name, ctx):
+        n = z3.Int('hits_n')
+        ctx.assume(n >= 1)
+        ctx.len_vars.append(n)
+        ceilo = z3.Array('hit_ceilo', z3.IntSort(), z3.StringSort())
+        dt = z3.Array('hit_dt', z3.IntSort(), z3.RealSort())
+        h = z3.Array('hit_height', z3.IntSort(), z3.RealSort())
+        hn = z3.Array('hit_height_nan', z3.IntSort(), z3.BoolSort())
+        ty = z3.Array('hit_type', z3.IntSort(), z3.IntSort())
+        cols = {'ceilo': (lambda i: SStr(ceilo[i])), 'dt': (lambda i: SFloat(dt[i], False, 'npfloat')),
+                'height': (lambda i: SFloat(h[i], hn[i], 'npfloat')), 'type': (lambda i: SInt(ty[i], 'npint'))}
+        fr = SRows(n, cols, (lambda i: i), positional=True)        # the private hit table carries a RangeIndex (constructor: _cleanup_pdf)
+        fr.kinds = {'ceilo': 'str', 'dt': 'float', 'height': 'float', 'type': 'int'}
+        ctx.ghost['hits'] = dict(n=n, ceilo=ceilo, dt=dt, h=h, hn=hn, ty=ty, frame=fr, cols0=dict(fr.cols))
+        sl = {'dt_scale': Opaque('prm'), 'height_scale_mode': Opaque('prm'), 'height_scale_kwargs': Opaque('prm'), 'distance_threshold': Opaque('prm')}
+        return SChunk(CHUNK, {'_prms': {'SLICING_PRMS': sl}, '_data': fr, '_slices': None, '_groups': None, '_layers': None}, {})
+
+    def describe(self):
+        return 'chunk with a symbolic hit table (no ids yet), RangeIndex'
+
+
+def _rescaled_result(name, ctx, self, dt_mode=None, dt_kwargs=None, height_mode=None, height_kwargs=None):
+    g = ctx.ghost['hits']
+    fr = self.fields['_data']
+    dts = smt.fresh('scaled_dt', z3.ArraySort(z3.IntSort(), z3.RealSort()))
+    hs = smt.fresh('scaled_height', z3.ArraySort(z3.IntSort(), z3.RealSort()))
+    cols = dict(fr.cols)
+    cols['dt'] = (lambda i: SFloat(dts[i], False, 'npfloat'))
+    cols['height'] = (lambda i: SFloat(hs[i], g['hn'][i], 'npfloat'))          # scaling is NaN-blind (C19: apply_scaling::post.nan_blind)
+    out = SRows(fr.n, cols, fr.label, fr.keep, positional=fr.positional)
+    out.kinds = dict(fr.kinds)
+    out.index_id = getattr(fr, 'index_id', fr.fid)
+    return out
+
+
+def _clusterize_result(name, ctx, data, algo=None, kwargs=None):
+    from pyvc.rows_model import SSelValues
+    if not isinstance(data, SSelValues):
+        from pyvc.values import Unsupported
+        raise Unsupported('clusterize of this value')
+    sel = data.selection
+    fr = sel.frame
+    S = smt.fresh('clustered_rows', BoolArr)
+    m = sel.mask.at
+    ctx.assume(Forall(0, fr.n, lambda i: S[i] == And(fr.present(i), to_bool(m(i))), name='cs'))
+    ctx.note_cnt(S)
+    k = _cnt_fn(S, fr.n)
+    nlab = smt.fresh_int('n_clusters')
+    lab = smt.fresh('labels', z3.ArraySort(z3.IntSort(), z3.IntSort()))
+    labels = SArr(k, lambda i: SInt(lab[i], 'npint'), 'int')
+    labels.of_selection = S
+    ctx.assume(nlab >= 1)
+    ctx.assume(Forall(0, k, lambda j: And(lab[j] >= 0, lab[j] < nlab), name='lb'))
+    ctx.ghost['labels'] = (lab, k, S)
+    return (SInt(nlab, 'npint'), labels)
+
+
+def _metarize_effect(ctx, self, which='slices'):
+    self.fields['_' + which] = Opaque(f'{which} table (metarize)')
+
+
+def _slices_post(result, self):
+    ctx = smt.CURRENT_CTX
+    g = ctx.ghost['hits']
+    fr = self.fields['_data']
+    n, hn = g['n'], g['hn']
+    if 'slice_id' not in fr.cols:
+        return {'slice_id_column_created': False}
+    sid = fr.cols['slice_id']
+    from pyvc.values import to_int_term
+    return {
+        # C05 (slice clause): a hit belongs to a slice iff its height is valid; non-detections carry -1
+        'valid_hits_get_a_slice': Forall(0, n, lambda i: Implies(Not(hn[i]), to_int_term(sid(i)) >= 0)),
+        'non_detections_get_none': Forall(0, n, lambda i: Implies(hn[i], to_int_term(sid(i)) == -1)),
+        # no hit is created, lost or altered
+        'hit_columns_untouched': all(fr.cols[c] is g['cols0'][c] for c in ('ceilo', 'dt', 'height', 'type')) and fr is g['frame'] and fr.keep is None,
+        'slices_table_built': self.fields['_slices'] is not None}
+
+
+def register_slicing(reg):
+    reg.add(Contract(
+        f'{CHUNK}.data_rescaled', properties=('C05', 'C19'),
+        result=_rescaled_result,
+        raises={'AmpycloudError': lambda self, **kw: 'maybe'},
+        notes=('ASSUMED at call sites: an independent copy of the hit table with the same rows and index, dt and height replaced by '
+               'scaled values; a height is NaN exactly where the original is (apply_scaling is NaN-blind: proved in C19); AmpycloudError '
+               'for scaling parameters that cannot be derived; checked by the bounded stand-ins of C05 / C19')))
+    reg.add(Contract(
+        'ampycloud.cluster.clusterize', properties=('C05',),
+        result=_clusterize_result,
+        raises={},
+        notes=('ASSUMED at call sites (scikit-learn AgglomerativeClustering): one label per sample, labels 0..n_clusters-1; checked by '
+               'the bounded stand-in of C05')))
+    mz = reg.get(f'{CHUNK}.metarize')
+    mz.modular_effect = _metarize_effect
+    reg.add(Contract(
+        f'{CHUNK}.find_slices', properties=('C05', 'C08'),
+        params={'self': ChunkForSlicing()},
+        ensures=_slices_post,
+        raises={'AmpycloudError': lambda self: 'maybe'},
+        canaries={'everything_in_one_slice': lambda result, self: Forall(0, smt.CURRENT_CTX.ghost['hits']['n'], lambda i: __import__('pyvc.values', fromlist=['x']).to_int_term(
+            self.fields['_data'].cols['slice_id'](i)) == 1)},
+        notes='the labels come from the assumed clustering contract; metarize is applied by its contract'))
